@@ -67,6 +67,8 @@ def replay_chunk(cases: List[Dict[str, Any]]):
 
     out = {"n": 0, "viol": [], "fails": 0, "has_sweep": 0}
     first = None
+    from ..seams import make_recording_orchestrator
+    shared_orch = make_recording_orchestrator()      # ONE orchestrator object serving many different pipelines
     for ci, case in enumerate(cases):
         nodes = g_prog(case["prog"])
         h = zlib.crc32(repr(case["prog"]).encode() + repr(case["ictx"]).encode())
@@ -93,6 +95,14 @@ def replay_chunk(cases: List[Dict[str, Any]]):
             out["viol"].append((f"reproducible:fresh:{'sweep' if any(n['kind'].startswith('Sweep') for n in case['prog']) else 'plain'}",
                                 f"[{pk}] two traced runs (fresh Pipeline objects) differ after normalisation at {first_diff(n1, n2)}",
                                 {"case": case, "nodes": nodes, "detail": detail}))
+        # the same configuration through an orchestrator object that has already run other pipelines
+        if ci % 2 == 0 or any(n["kind"].startswith("Sweep") for n in case["prog"]):
+            tr3 = run_traced(nodes, *mk(), detail=detail, orchestrator=shared_orch)
+            n3 = normalise(tr3["records"])
+            if n3 != n1 or not same_outcome(tr3, un):
+                out["viol"].append((f"reproducible:shared-orchestrator:{'sweep' if any(n['kind'].startswith('Sweep') for n in case['prog']) else 'plain'}",
+                                    f"[{pk}] traced through an orchestrator that ran other pipelines before: differs at {first_diff(n1, n3)}",
+                                    {"case": case, "nodes": nodes, "detail": detail}))
         # one reused Pipeline object, two runs into two files
         if ci % 3 == 0:
             tmp = Path(tempfile.mkdtemp(prefix="vtrace-"))
